@@ -124,6 +124,7 @@ type ReplayOutcome struct {
 	Asserts    []string // failed assertion messages
 	Panic      string
 	AssumeFail bool
+	OOM        bool
 	Output     string
 	Err        string
 }
@@ -137,8 +138,10 @@ func (n *NativeRunner) Replay(pkgRel, harness string, vectorFile string, repeat 
 	}
 	ctx, cancel := context.WithTimeout(context.Background(), 5*time.Minute)
 	defer cancel()
+	// the test binary runs under an address-space limit: a counterexample that makes the
+	// real code allocate by a header field must not take the machine down
 	cmd := exec.CommandContext(ctx, "go", "test", "-vet=off", "-count=1", "-overlay", ov,
-		"-run", "^TestVerifReplay$", "-v", "./"+pkgRel)
+		"-exec", "prlimit --as=6442450944", "-run", "^TestVerifReplay$", "-v", "./"+pkgRel)
 	cmd.Dir = n.RepoDir
 	env := []string{}
 	for _, e := range os.Environ() {
@@ -172,7 +175,11 @@ func (n *NativeRunner) Replay(pkgRel, harness string, vectorFile string, repeat 
 			res.Failed = true
 		}
 	}
-	if !strings.Contains(out, "VERIF-REPLAY-") && !res.AssumeFail {
+	if strings.Contains(out, "out of memory") || strings.Contains(out, "cannot allocate memory") {
+		res.OOM = true
+		res.Failed = true
+	}
+	if !strings.Contains(out, "VERIF-REPLAY-") && !res.AssumeFail && !res.OOM {
 		res.Err = fmt.Sprintf("native replay did not complete: %v\n%s", runErr, tail(out, 2000))
 	}
 	return res
